@@ -43,15 +43,22 @@ fn stray(rng: &mut Rng, n_ent: usize, to: Ent, k: usize) -> (Vec<u8>, String) {
     let mode = if rng.bool() { ack() } else { unack() };
     match rng.below(7) {
         0 | 1 => {
-            // response addressed to a sender that does not exist here
-            let h = header(ent_id(to), ent_id(other), 20000 + k as u16, Direction::ToSender, mode, false);
+            // response addressed to a sender that does not exist here - or (half of them) a response of a
+            // transaction between two OTHER entities (or misrouted back to its own receiver) that strays in here
+            let (src, dst, name) = if rng.bool() {
+                (ent_id(to), ent_id(other), "to-sender-unknown")
+            } else {
+                let third = (0..n_ent).find(|e| *e != to && *e != other).unwrap_or(to);
+                (ent_id(other), ent_id(third), "to-sender-foreign")
+            };
+            let h = header(src, dst, 20000 + k as u16, Direction::ToSender, mode, false);
             let pl = match rng.below(4) {
                 0 => Operations::Ack(PositiveAcknowledgePDU { directive: PDUDirective::EoF, directive_subtype_code: ACKSubDirective::Other, condition: Condition::NoError, transaction_status: TransactionStatus::Active }),
                 1 => Operations::Nak(NegativeAcknowledgmentPDU { start_of_scope: 0, end_of_scope: 64, segment_requests: vec![SegmentRequestForm { start_offset: 0, end_offset: 64 }] }),
                 2 => Operations::Finished(Finished { condition: Condition::NoError, delivery_code: DeliveryCode::Complete, file_status: FileStatusCode::Retained, filestore_response: vec![], fault_location: None }),
                 _ => Operations::KeepAlive(KeepAlivePDU { progress: 5 }),
             };
-            (mk_pdu(&h, Direction::ToSender, PDUPayload::Directive(pl)).encode(), "to-sender-unknown".into())
+            (mk_pdu(&h, Direction::ToSender, PDUPayload::Directive(pl)).encode(), name.into())
         }
         2 => {
             // names an entity without transport
